@@ -25,3 +25,9 @@ func TestC07(t *testing.T) { search(t, "C07") }
 func TestC08(t *testing.T) { search(t, "C08") }
 func TestC09(t *testing.T) { search(t, "C09") }
 func TestC10(t *testing.T) { search(t, "C10") }
+
+func TestC11(t *testing.T) { search(t, "C11") }
+func TestC12(t *testing.T) { search(t, "C12") }
+func TestC13(t *testing.T) { search(t, "C13") }
+func TestC14(t *testing.T) { search(t, "C14") }
+func TestC15(t *testing.T) { search(t, "C15") }
